@@ -12,7 +12,7 @@ CONSTANTS
     AllowDupDir = TRUE
     AllowUnsorted = TRUE
     AllowLinkFirst = TRUE
-    DupDirCountsTwice = TRUE
+    DupDirCountsTwice = FALSE
     LastChunkToEnd = TRUE
 SPECIFICATION TraceSpec
 INVARIANT Done
